@@ -148,7 +148,7 @@ class HpcSubmitter:
             blocked_jobs = []
             submitted_jobs = []
             for group in self._cluster.config.submission_groups:
-                if not queue.is_full():
+                if not queue.is_full() and not self._cluster.is_canceled():
                     self._submit_batches(queue, group, blocked_jobs, submitted_jobs)
 
             num_submissions = self._batch_index - starting_batch_index
